@@ -204,9 +204,8 @@ impl VWorld {
                 for k in 0..3u8 {
                     self.w.apply(&Op::Ins { ks: *ks, k, v: round })?;
                 }
-                for v in self.views.iter_mut().flatten() {
-                    let _ = v;
-                }
+                // a short-lived snapshot at the newest instant comes and goes (as every scan does)
+                drop(self.w.dbi().snapshot());
                 self.w.apply(&Op::Rotate { ks: *ks })?;
             }
             let mut guard = 0;
@@ -508,8 +507,8 @@ pub fn passes(tier: &str) -> Vec<VPass> {
     wide.clear = vec![0];
     wide.ingest = vec![(0, vec![(0, Some(1))])];
     let mut v = vec![
-        VPass { name: "snapshots+iterators", prop: vp(d.clone(), "", alpha_small(), 2, true, false, false), depth: if q { 5 } else { 6 }, min_depth: 4, secs: if q { 9.0 } else { 300.0 } },
-        VPass { name: "snapshots/clear+ingest+maintenance", prop: vp(d.clone(), "a_in_last_level", wide.clone(), 2, false, false, false), depth: if q { 5 } else { 6 }, min_depth: 4, secs: if q { 7.0 } else { 200.0 } },
+        VPass { name: "snapshots+iterators", prop: vp(d.clone(), "", alpha_small(), 2, true, false, true), depth: if q { 5 } else { 6 }, min_depth: 4, secs: if q { 9.0 } else { 300.0 } },
+        VPass { name: "snapshots/clear+ingest+maintenance", prop: vp(d.clone(), "a_in_last_level", wide.clone(), 2, false, false, true), depth: if q { 5 } else { 6 }, min_depth: 4, secs: if q { 7.0 } else { 200.0 } },
         VPass { name: "optimistic-tx views (gc amplifier)", prop: vp(Cfg { kind: DbKind::Optimistic, ..d.clone() }, "", { let mut a = Alpha::empty(); a.ins = vec![(0, 1, 1)]; a.rotate = vec![0]; a }, 2, false, true, true), depth: if q { 6 } else { 7 }, min_depth: 4, secs: if q { 6.0 } else { 300.0 } },
         VPass { name: "single-writer-tx views", prop: vp(Cfg { kind: DbKind::SingleWriter, ..d.clone() }, "", alpha_small(), 2, false, true, true), depth: if q { 5 } else { 6 }, min_depth: 3, secs: if q { 5.0 } else { 200.0 } },
     ];
